@@ -2,7 +2,7 @@
    Theorem statements only; proofs in Proofs/ConsumerStop.v (stop), ConsumerC13.v / ConsumerC13Top.v (start Deferred).
    Model: Model/Consumer.v (afkak/consumer.py:290-1131).  Never weaken a statement here. *)
 From AV Require Import Base.Util Model.Consumer Proofs.ConsumerBase Proofs.ConsumerFrame Proofs.ConsumerC13
-  Proofs.ConsumerStop Proofs.ConsumerC13Top.
+  Proofs.ConsumerStop Proofs.ConsumerC13Top Proofs.ConsumerInv Proofs.ConsumerRun.
 Open Scope Z_scope.
 
 (* In EVERY state in which stop() can be called (not already inside stop(), not inside the auto-commit timer callback
@@ -60,6 +60,25 @@ Theorem C13_stop_not_running : forall fuel s s' o, s_startd s = None -> step (S 
 Proof. exact stop_not_running. Qed.
 Print Assumptions C13_stop_not_running.
 
+(* ---------------- over whole runs ---------------- *)
+(* every state between two events of every run from the initial state (n0 = configured request_retry_max_attempts;
+   all_fuel_ok: the interpreter of nested callback chains never ran out of fuel) satisfies the invariant Reach:
+   _stopping clear (no stop() ever aborts half-way), no auto-commit tick half-done, no API call in progress, and the
+   fetch-side facts (armed retry timer => no request outstanding; parked reply => its request is the fired fetch and
+   back-off index 0, attempt count 1; stale retry timer => not started; not started => no request, no armed timer) *)
+Theorem C13_reachable_invariant : forall n0 fuel evs c buf,
+  all_fuel_ok (run_steps fuel (init c n0 buf) evs) = true ->
+  Forall (fun t => Reach n0 (t_pre t) /\ Reach n0 (t_post t)) (run_steps fuel (init c n0 buf) evs).
+Proof. intros. apply reach_run; [apply reach_init | assumption]. Qed.
+Print Assumptions C13_reachable_invariant.
+
+(* C13_quiescent_after_stop over all runs: EVERY stop() of a running consumer, in every run, returns (never raises) and
+   leaves the consumer quiescent, having sent / scheduled / delivered nothing; the retry limit is the configured one *)
+Theorem C13_every_stop_quiescent : forall n0 fuel evs c buf,
+  all_fuel_ok (run_steps fuel (init c n0 buf) evs) = true -> Forall (stop_ok n0) (run_steps fuel (init c n0 buf) evs).
+Proof. intros. apply stop_run; [apply reach_init | assumption]. Qed.
+Print Assumptions C13_every_stop_quiescent.
+
 (* ---------------- non-vacuity: stop() with a commit in flight, a reply parked behind a pending processor ----------- *)
 Definition ex_cfg := mkCfg true 1 true 0 None 7.
 Definition ex_evs := [EStart 0; EPlan 0 0; EFetchOk [0; 1] false; EFireRetry; EFetchOk [2] false].
@@ -71,6 +90,8 @@ Example ex_stop : let (s', o) := step 60 ex_s EStop in
   quiescent s' = true /\ returned o = true /\ fuel_ok o = true /\
   flat_map (enc_out 7) o = [28; 27; 4; 26; 3; 30; 1; 0; 34; 0; 37; 0; -1000].
 Proof. vm_compute. repeat split; reflexivity. Qed.
+Example ex_reach : all_fuel_ok (run_steps 60 (init ex_cfg 0 4096) (ex_evs ++ [EStop; EStart 1])) = true.
+Proof. vm_compute. reflexivity. Qed.
 Example ex_restart : let (s', _) := step 60 ex_s EStop in
   flat_map (enc_out 7) (snd (step 60 s' (EStart 1))) = [22; 1; 4096; 25; 3; -1; 34; 0; 37; 0; -1000].
 Proof. vm_compute. reflexivity. Qed.
